@@ -69,12 +69,15 @@ impl Offset {
                         None => result,
                     };
                     match result {
-                        Ok(bytes) => {
-                            TimeZone::from_tzif(&bytes)
-                                .unwrap()
-                                .to_local_time_type(DateTime::now().timestamp())
-                                .utoff
-                        }
+                        // An unreadable or damaged file is treated like a missing one (UTC)
+                        Ok(bytes) => match TimeZone::from_tzif(&bytes) {
+                            Ok(time_zone) => {
+                                time_zone
+                                    .to_local_time_type(DateTime::now().timestamp())
+                                    .utoff
+                            }
+                            Err(_) => 0,
+                        },
                         Err(_) => 0,
                     }
                 };
